@@ -438,7 +438,7 @@ func tryReplayRegion(prog *Program, cs *ContractSet, prop string, r ObResult, re
 	for _, as := range uc.AtStmts {
 		matched := false
 		for st := range listStmts {
-			if !strings.HasPrefix(normWS(x.src(st)), as.Anchor) {
+			if !x.anchorMatches(st, as.Anchor) {
 				continue
 			}
 			if _, isBlock := st.(*ast.BlockStmt); isBlock {
